@@ -163,6 +163,11 @@ BookkeepingClasses == {"MaxLocalBufs"}      \* counter unit the library adds bef
 \* width of a control (array-valued parameters: w channels, one name) and the default of its channel ch
 CtlW(c) == IF "w" \in DOMAIN c THEN c.w ELSE 1
 CtlDef(c, ch) == IF CtlW(c) = 1 THEN c.d ELSE (c.d + ch) % 7
+\* lag of a control-rate parameter (given through rates=[number]); 0 = none.  As soon as ONE control-rate parameter of a
+\* definition has a lag, all its control-rate parameters live in LagControl units - at most 16 channels per unit, one lag
+\* input per channel - instead of one Control unit
+CtlLag(c) == IF "lag" \in DOMAIN c THEN c.lag ELSE 0
+Lagged(prog) == \E i \in 1..Len(prog.ctl) : prog.ctl[i].r = 1 /\ CtlLag(prog.ctl[i]) # 0
 CtlRate(r) == CASE r = 0 -> 0 [] r = 1 -> 1 [] r = 2 -> 2 [] r = 3 -> 1
 CtlClass(r) == CASE r = 0 -> "Control" [] r = 1 -> "Control" [] r = 2 -> "AudioControl" [] r = 3 -> "TrigControl"
 
@@ -283,6 +288,7 @@ ProgShapeOK(prog) ==
     /\ \A n \in 1..Len(prog.ins) : InsShapeOK(prog, n)
     /\ \A i, j \in 1..Len(prog.ctl) : i # j => prog.ctl[i].n # prog.ctl[j].n
     /\ \A i \in 1..Len(prog.ctl) : prog.ctl[i].r \in 0..3 /\ Abs(prog.ctl[i].d) <= MagCap /\ CtlW(prog.ctl[i]) \in 1..2048
+                                    /\ CtlLag(prog.ctl[i]) \in 0..64 /\ (CtlLag(prog.ctl[i]) # 0 => prog.ctl[i].r = 1)
 Decidable(prog) ==
     ProgShapeOK(prog) /\ LET at == Attrs(prog) IN \A n \in 1..Len(prog.ins) : InsDecidable(prog, n, at)
 
@@ -449,7 +455,11 @@ CtlWhy(prog, d, i) ==
     IF s < 0 \/ s + CtlW(c) > Len(d.ctl) THEN "control-missing"
     ELSE IF \E ch \in 0..(CtlW(c) - 1) : d.ctl[s + ch + 1].x # 1 \/ d.ctl[s + ch + 1].v # CtlDef(c, ch) THEN "control-default"
     ELSE IF \E ch \in 0..(CtlW(c) - 1) : ~\E u \in 1..Len(d.units) :
-                /\ d.units[u].c = CtlClass(c.r)
+                /\ d.units[u].c = (IF c.r = 1 /\ Lagged(prog) THEN "LagControl" ELSE CtlClass(c.r))
+                /\ (d.units[u].c = "LagControl" =>          \* <= 16 channels, the lag of this channel as constant input
+                        /\ Len(d.units[u].outs) <= 16 /\ Len(d.units[u].ins) = Len(d.units[u].outs)
+                        /\ LET in == d.units[u].ins[s + ch - d.units[u].sp + 1] IN
+                           in[1] < 0 /\ d.consts[in[2] + 1].x = 1 /\ d.consts[in[2] + 1].v = CtlLag(c))
                 /\ d.units[u].sp <= s + ch /\ s + ch < d.units[u].sp + Len(d.units[u].outs)
                 /\ d.units[u].outs[s + ch - d.units[u].sp + 1] = CtlRate(c.r)
          THEN "control-unit"
